@@ -133,17 +133,17 @@ Qed.
 
 (* '[' h ']' followed by the rendered port, h made of hex digits, ':' and '.' *)
 Lemma hostport_legal_v6 h :
-  h <> [] -> forallb (fun c => hexdig c || memN c [58; 46]) h = true ->
+  h <> [] -> forallb (fun c => hexdig c || memN c [58; 46]) h = true -> memN 58 h = true ->
   hostport_ok false (([91] ++ h ++ [93]) ++ ptxt) = true.
 Proof.
-  intros NE HC. unfold hostport_ok. cbn [app]. rewrite N.eqb_refl.
+  intros NE HC H58. unfold hostport_ok. cbn [app]. rewrite N.eqb_refl.
   unfold ipliteral_port_ok.
   assert (H93 : forallb (nin [93]) h = true).
   { rewrite forallb_forall in *. intros c Hc. specialize (HC c Hc). unfold nin. cbn [memN].
     destruct (c =? 93) eqn:E; [|reflexivity]. apply N.eqb_eq in E. subst c. discriminate. }
   replace ((h ++ [93]) ++ ptxt) with (h ++ 93 :: ptxt) by (rewrite <- app_assoc; reflexivity).
   rewrite (span_stop _ h (93 :: ptxt) H93) by reflexivity.
-  destruct h as [|h0 hr]; [contradiction|]. rewrite HC. cbn [andb].
+  destruct h as [|h0 hr]; [contradiction|]. rewrite HC, H58. cbn [andb].
   destruct port_ok as [[-> _]|[ds [p [-> [_ [_ [_ [_ D]]]]]]]]; [reflexivity|].
   rewrite N.eqb_refl. exact D.
 Qed.
@@ -298,6 +298,6 @@ Proof.
   pose proof (to_text_rendered T O ht HTNE (port_text T u) scheme sep user pw fam host port rest q frag N0 GA) as R0.
   pose proof (eq_trans (eq_sym R0) R) as EF. inversion EF as [EF'].
   apply (rendered_wf T O TOK ht HTC (port_text T u) (port_back T u) PO
-           (hostport_legal_v6 (port_text T u) (port_back T u) PO host HNE HC)
+           (hostport_legal_v6 (port_text T u) (port_back T u) PO host HNE HC H58)
            scheme user pw rest q frag SO Hs N0 Su Sp Fr Fq Sf).
 Qed.
